@@ -115,6 +115,27 @@ def nxt(x, up, kind):
     return math.nextafter(x, INF if up else -INF)
 
 
+def rn_exact(fr, kind):
+    """the binary32 / binary64 value nearest to the finite rational fr (ties to even), as a Python float; None outside the
+    normal range (the caller falls back to outward widening)"""
+    if fr == 0:
+        return 0.0
+    prec, emin, emax = (24, -126, 127) if kind == "float" else (53, -1022, 1023)
+    sign = -1 if fr < 0 else 1
+    a = abs(fr)
+    e = a.numerator.bit_length() - a.denominator.bit_length()
+    if Fraction(2) ** e > a:
+        e -= 1
+    if e < emin or e > emax - 1:
+        return None
+    q = a / (Fraction(2) ** (e - prec + 1))
+    n = q.numerator // q.denominator
+    rem = q - n
+    if rem > Fraction(1, 2) or (rem == Fraction(1, 2) and n % 2 == 1):
+        n += 1
+    return sign * float(Fraction(n) * Fraction(2) ** (e - prec + 1))
+
+
 class Analyzer:
     def __init__(self, mod, fn, join_threshold=300, max_states=400000, max_iter=80, early_join=8):
         self.early_join = early_join
@@ -2193,7 +2214,12 @@ class Analyzer:
                 fhi = nxt(fhi, True, kind)
             st.env[i.res] = self.F(st, kind, flo, fhi, False, T("sitofp", kind, a.lin.key()), xl, a.lin)
         else:
-            st.env[i.res] = self.fmk(st, kind, f32round(flo), f32round(fhi), False, T("sitofp", kind, a.lin.key()), xl, a.lin)
+            # the conversion is the correctly rounded value and rounding is monotone: round the ends exactly
+            elo, ehi = rn_exact(Fraction(lo), kind), rn_exact(Fraction(hi), kind)
+            if elo is not None and ehi is not None:
+                st.env[i.res] = self.F(st, kind, elo, ehi, False, T("sitofp", kind, a.lin.key()), xl, a.lin)
+            else:
+                st.env[i.res] = self.fmk(st, kind, f32round(flo), f32round(fhi), False, T("sitofp", kind, a.lin.key()), xl, a.lin)
 
     def x_uitofp(self, st, i):
         a = self.as_int(st, self.val(st, i.ops[0]))
@@ -2457,6 +2483,15 @@ class Analyzer:
                         # underflow: only matters if tiny; product of |y| >= denormal by 2^k>=1 never underflows
                         if xlo >= 1.0:
                             contraction_safe = True
+        if contraction_safe and not nan and not any(math.isinf(v) for v in (plo, phi, clo, chi)):
+            # the product is exact, so fused and unfused evaluation both return RN(product + c): round the exact sums of the interval
+            # ends (RN is monotone) instead of widening by an ulp
+            elo = rn_exact(Fraction(plo) + Fraction(clo), kind)
+            ehi = rn_exact(Fraction(phi) + Fraction(chi), kind)
+            if elo is not None and ehi is not None:
+                st.notes.append(("fmuladd", i.line, contraction_safe))
+                st.env[i.res] = self.F(st, kind, elo, ehi, nan, t, xl)
+                return
         st.notes.append(("fmuladd", i.line, contraction_safe))
         st.env[i.res] = self.fmk(st, kind, lo, hi, nan, t, xl)
 
